@@ -284,6 +284,10 @@ fn alphabet(full: bool) -> Vec<Act> {
         // a user operator carrying the name of a built-in the pipeline executes itself
         a.push(Act::RegOp(0, "push", 10));
         a.push(Act::Op(0, "push | addone"));
+        // names are taken as written, also when they contain a subscript digit (which is sugar in parameter keys only)
+        a.push(Act::RegOp(0, "add₁", 20));
+        a.push(Act::RegRes(0, "m:op₁", "addone|addone"));
+        a.push(Act::Op(0, "add₁ | m:op₁"));
     }
     // the second context
     a.push(Act::RegOp(1, "addone", 20));
